@@ -40,6 +40,20 @@ def addr_of_lib(x):
     return {'kind': 'std', 'wc': x.wc, 'hash': list(x.hash_part), 'any': any_}
 
 
+def rebuild(c, memo):
+    """structurally identical cell made of fresh objects (no state carried over from earlier calls)"""
+    if id(c) in memo:
+        return memo[id(c)]
+    tb = TvmBitarray(1023, bitarray(c.bits))
+    f = Cell(tb, [rebuild(r, memo) for r in c.refs], c.type_)
+    memo[id(c)] = f
+    return f
+
+
+class Unobservable(Exception):
+    pass
+
+
 class Pool:
     def __init__(self):
         self.records = []
@@ -51,6 +65,7 @@ class Pool:
         self.next = 1
         self.keep = []       # python objects kept alive so id() stays unique
         self.opaque = set()
+        self.dead = False
         self.records.append({'op': 'reset'})
 
     def reg(self, obj, kind):
@@ -63,10 +78,12 @@ class Pool:
 
     def adopt(self, cell):
         """register a cell built outside the pool WITHOUT its children (opaque: projected with no references)"""
+        if self.dead:
+            return 0
         c = {'op': 'adopt', 'new': self.next}
         self.opaque.add(id(cell))
         i = self.reg(cell, 'cell')
-        self.records.append({'op': 'call', 'call': c, 'tags': [], 'out': {'res': {'new': i}}, 'post': self.project()})
+        self.finish({'op': 'call', 'call': c, 'tags': [], 'out': {'res': {'new': i}}})
         return i
 
     def cell_id(self, c):
@@ -99,7 +116,14 @@ class Pool:
             if kind == 'cell':
                 p['d'] = o.get_depth(3)
                 p['h'] = list(o.hash)
-                p['s'] = list(hashlib.sha256(o.to_boc()).digest()) if id(o) not in self.opaque else []
+                if id(o) in self.opaque:
+                    p['s'], p['fh'], p['fs'] = [], p['h'], []
+                else:
+                    p['s'] = list(hashlib.sha256(o.to_boc()).digest())
+                    # the same value rebuilt from scratch (fresh objects, no call history): results must agree
+                    f = rebuild(o, {})
+                    p['fh'] = list(f.hash)
+                    p['fs'] = list(hashlib.sha256(f.to_boc()).digest())
             out.append(p)
         return out
 
@@ -110,7 +134,11 @@ class Pool:
         return self.objs[i][1]
 
     # ------------------------------------------------------------------ one call
+    DEAD = {'op': 'call', 'out': {'err': 'pool_unobservable'}, 'post': []}
+
     def call(self, c, tags=()):
+        if self.dead:
+            return self.DEAD
         rec = {'op': 'call', 'call': c, 'tags': list(tags)}
         try:
             res = self._exec(c, rec)
@@ -119,9 +147,21 @@ class Pool:
             raise
         except Exception as e:
             rec['out'] = {'err': type(e).__name__}
-        rec['post'] = self.project()
-        self.records.append(rec)
+        self.finish(rec)
         return rec
+
+    def finish(self, rec):
+        """project every live object; if the library cannot even be observed, record that and stop the behaviour"""
+        try:
+            rec['post'] = self.project()
+            self.last_post = rec['post']
+        except BaseException as e:
+            rec['post'] = getattr(self, 'last_post', [])
+            rec['broken'] = type(e).__name__
+            self.records.append(rec)
+            self.dead = True          # the pool cannot be observed any more: ignore calls until the next reset
+            return
+        self.records.append(rec)
 
     def _new(self, c, obj, kind):
         i = self.reg(obj, kind)
@@ -236,6 +276,8 @@ class Pool:
 
     def cell_from_bits(self, bits, refs, plain=True):
         """Cell(bits, refs) constructed directly; records whether the caller's bit array was touched"""
+        if self.dead:
+            return self.DEAD
         c = {'op': 'cell_from_bits', 'bits': bitstr_of_list(bits), 'refs': list(refs), 'new': self.next}
         rec = {'op': 'call', 'call': c, 'tags': []}
         arg = bitarray(bits) if plain else TvmBitarray(1023, bitarray(bits))
@@ -246,8 +288,7 @@ class Pool:
         except Exception as e:
             rec['out'] = {'err': type(e).__name__}
         rec['argafter'] = bitstr(arg)
-        rec['post'] = self.project()
-        self.records.append(rec)
+        self.finish(rec)
         return rec
 
 
